@@ -30,6 +30,7 @@ import (
 
 	networking "istio.io/api/networking/v1alpha3"
 	typev1beta1 "istio.io/api/type/v1beta1"
+	kubegateway "istio.io/istio/pilot/pkg/config/kube/gateway"
 	"istio.io/istio/pilot/pkg/model"
 	istioroute "istio.io/istio/pilot/pkg/networking/core/route"
 	pxds "istio.io/istio/pilot/pkg/xds"
@@ -343,6 +344,10 @@ func (c *cmpSUT) apply(f []string) (out string) {
 		l := buildConfigs(f[1], false)
 		res := model.VerifC17SortConfigByCreationTime(l)
 		return groupTies(cfgIDs(res), func(i, j int) bool { return sameMeta(res[i], res[j]) })
+	case "gwcfg":
+		l := buildConfigs(f[1], false)
+		res := kubegateway.VerifC17SortConfigByCreationTime(l)
+		return groupTies(cfgIDs(res), func(i, j int) bool { return sameMeta(res[i], res[j]) })
 	case "dr":
 		l := buildConfigs(f[1], true)
 		res := model.VerifC17SortConfigBySelectorAndCreationTime(l)
@@ -637,6 +642,9 @@ func genCmpOp(r *wire.Rng) []string {
 	case 2:
 		return []string{"cfg", genObjs(r, false)}
 	case 3:
+		if r.Chance(1, 3) {
+			return []string{"gwcfg", genObjs(r, false)}
+		}
 		return []string{"dr", genObjs(r, false)}
 	case 4:
 		seen := map[string]bool{}
@@ -783,7 +791,7 @@ func oracleOp(c *cmpSUT, r *wire.Rng, f []string) string {
 				return "wl:perm"
 			}
 		}
-	case "svc", "cfg", "dr":
+	case "svc", "cfg", "dr", "gwcfg":
 		key := func(p []string) string { return p[1] + ";" + p[2] + ";" + p[3] }
 		if f[0] == "svc" {
 			key = func(p []string) string { return strings.Join(p[1:7], ";") }
